@@ -322,14 +322,14 @@ def gro_sequence(seq, acc, base):
                     problems.append(('gro:sequence-fields', 'atom %d read back as %r' % (idx, (node.get('atomname'), node.get('resname'), node.get('resid')))))
                     break
                 pos = node.get('position')
-                if pos is None or max(abs(float(p) - x) for p, x in zip(pos, xyz)) > 5.001e-4:
+                if pos is None or not all(abs(float(p) - x) <= 5.001e-4 for p, x in zip(pos, xyz)):
                     problems.append(('gro:sequence-coordinates', 'atom %d written at %r (precision %d) read back at %r' % (
                         idx, xyz, precision, None if pos is None else [float(x) for x in pos])))
                     break
                 if has_vel:
                     vel = node.get('velocity')
                     want = [0.1234 * (idx + 1), -1.5, 9.8765]
-                    if vel is None or max(abs(float(v) - w) for v, w in zip(vel, want)) > 5.001e-5:
+                    if vel is None or not all(abs(float(v) - w) <= 5.001e-5 for v, w in zip(vel, want)):
                         problems.append(('gro:sequence-velocities', 'atom %d velocity %r read back as %r' % (idx, want, None if vel is None else [float(x) for x in vel])))
                         break
         except Exception as err:   # pylint: disable=broad-except
